@@ -25,7 +25,7 @@ SPEC = {
     "nontrivial": lambda r, a: (r.startswith("step | measure") or r.startswith("step | reset ") or r.startswith("step | cond")
                                 or r.startswith("step | peek") or r.startswith("shot")),
     "rule": "random circuits over all op kinds (gates incl. nested combinators, conditional gates, measure/peek in X/Y/Z, measure_all, "
-            "peek_all, reset, reset_all, barrier; <=3 qubits quick / <=4 thorough, <=12 ops, 1..40 shots) executed by the real Circuit with "
+            "peek_all, reset, reset_all, barrier; <=3 qubits quick / <=4 thorough, <=12 ops, 1..40 shots) plus structured Clifford circuits in which the measured/reset qubit is entangled with several superposed qubits (several X-carrying generator rows), executed by the real Circuit with "
             "the verif trace: (A) every operation is re-executed by the Lean model from the implementation's pre-state with the "
             "implementation's logged random draws (each draw's distribution parameter compared to 1e-9) and must reproduce the post "
             "state/ranges/register to 1e-9; (B) sampled shots are replayed with forced outcomes by the reference semantics and the "
